@@ -23,6 +23,13 @@ package main
 //         perRunTypes, each justified by an allocation fact below).
 //     (c) package-level variables written in those reachable functions or in the bodies of
 //         the escaping closures of (a).
+//     (d) sync.Pool / sync.Map fields or package variables declared in the scanned packages and
+//         every Get/Put/Load/Store… on them (an object recycled between runs is shared in time).
+//     (b') writes THROUGH a field of a per-run object that aliases the compiled object
+//         (channelManager.successors = r.successors …): receiver-alias.
+//   taskManagerQueueFresh / channelManagerFieldsFresh / nonFreshPerRunFields : what the two
+//     per-run constructors put INTO the literal they return (l: list.New(), done: make(chan…),
+//     fresh mutex, fresh channel map; nothing from a pool, cache or package variable).
 //   runAllocs… : per-run allocation facts (does runner.run itself call initChannelManager /
 //     initTaskManager / extractOption / r.runCtx and bind the result to a local).
 //
@@ -508,6 +515,12 @@ func (cp *c09Pkg) receiverWrites(fd *ast.FuncDecl, file string) []c09Write {
 				continue
 			}
 			if _, ok := c09PerRunTypes[rtype]; ok {
+				// a per-run object may still hold a reference to something of the compiled
+				// object (channelManager.successors = r.successors, …): writing THROUGH such a
+				// field (c.successors[k] = …, c.edgeHandlerManager.x = …) is a shared write
+				if f, depth := c09FirstField(lhs); depth >= 2 && c09AliasFields[rtype][f] {
+					out = append(out, c09Write{key: fmt.Sprintf("%s/%s:%s:receiver-alias:%s", cp.dir, file, fname, exprString(lhs)), pos: cp.line(lhs.Pos())})
+				}
 				continue
 			}
 			if _, ok := c09BuilderTypes[rtype]; ok {
@@ -525,6 +538,312 @@ func (cp *c09Pkg) receiverWrites(fd *ast.FuncDecl, file string) []c09Write {
 		}
 		return true
 	})
+	return out
+}
+
+// fields of per-run literals that are initialised with a reference into the compiled object
+// (receiver-rooted selector): type name -> field name.  Filled by c09LiteralFields.
+var c09AliasFields = map[string]map[string]bool{}
+
+// c09FirstField: for recv.f…  returns f and the number of accessors applied to the root.
+func c09FirstField(e ast.Expr) (string, int) {
+	depth := 0
+	first := ""
+	for {
+		switch v := e.(type) {
+		case *ast.Ident:
+			return first, depth
+		case *ast.ParenExpr:
+			e = v.X
+		case *ast.SelectorExpr:
+			depth++
+			first = v.Sel.Name
+			e = v.X
+		case *ast.IndexExpr:
+			depth++
+			first = ""
+			e = v.X
+		case *ast.StarExpr:
+			depth++
+			first = ""
+			e = v.X
+		case *ast.SliceExpr:
+			depth++
+			first = ""
+			e = v.X
+		default:
+			return "", depth
+		}
+	}
+}
+
+// c09Classify says where the value of expression e (inside fd) comes from:
+//
+//	fresh  – allocated by this invocation (literal, make, new, pkg.New…(), zero value)
+//	scalar – constant / boolean / arithmetic over reads
+//	param  – handed in by the caller (per call by construction)
+//	alias  – a reference into the compiled object (selector rooted at the receiver)
+//	nonfresh:<why> – anything else: result of a method call on the compiled object
+//	         (pool.Get(), cache lookup), a package-level variable, an unknown function
+func c09Classify(cp *c09Pkg, fd *ast.FuncDecl, e ast.Expr, depth int) string {
+	if depth > 6 {
+		return "nonfresh:too-deep"
+	}
+	recvPos := token.NoPos
+	if fd.Recv != nil && len(fd.Recv.List) > 0 && len(fd.Recv.List[0].Names) > 0 {
+		recvPos = fd.Recv.List[0].Names[0].Pos()
+	}
+	isParam := func(id *ast.Ident) bool {
+		if id.Obj == nil || fd.Type.Params == nil {
+			return false
+		}
+		for _, f := range fd.Type.Params.List {
+			for _, n := range f.Names {
+				if n.Pos() == id.Obj.Pos() {
+					return true
+				}
+			}
+		}
+		return false
+	}
+	switch v := e.(type) {
+	case *ast.BasicLit, *ast.FuncLit, *ast.CompositeLit:
+		return "fresh"
+	case *ast.ParenExpr:
+		return c09Classify(cp, fd, v.X, depth+1)
+	case *ast.UnaryExpr:
+		if v.Op == token.AND {
+			if _, ok := v.X.(*ast.CompositeLit); ok {
+				return "fresh"
+			}
+			return c09Classify(cp, fd, v.X, depth+1)
+		}
+		return "scalar"
+	case *ast.BinaryExpr:
+		return "scalar"
+	case *ast.TypeAssertExpr:
+		return c09Classify(cp, fd, v.X, depth+1)
+	case *ast.CallExpr:
+		switch f := v.Fun.(type) {
+		case *ast.Ident:
+			if f.Obj == nil && (f.Name == "make" || f.Name == "new" || f.Name == "len" || f.Name == "cap") {
+				if f.Name == "len" || f.Name == "cap" {
+					return "scalar"
+				}
+				return "fresh"
+			}
+			return "nonfresh:call " + f.Name
+		case *ast.SelectorExpr:
+			if x, ok := f.X.(*ast.Ident); ok && x.Obj == nil && !cp.pkgVars[x.Name] && strings.HasPrefix(f.Sel.Name, "New") {
+				return "fresh" // constructor of an imported package: list.New(), errors.New(…), …
+			}
+			return "nonfresh:call " + exprString(v.Fun)
+		}
+		return "nonfresh:call"
+	case *ast.SelectorExpr:
+		id, _ := c09Root(v)
+		if id != nil && id.Obj != nil && id.Obj.Pos() == recvPos {
+			return "alias"
+		}
+		if id != nil && isParam(id) {
+			return "param"
+		}
+		if id != nil {
+			return c09Classify(cp, fd, id, depth+1)
+		}
+		return "nonfresh:" + exprString(v)
+	case *ast.Ident:
+		if v.Obj == nil {
+			switch v.Name {
+			case "true", "false", "nil":
+				return "scalar"
+			}
+			if cp.pkgVars[v.Name] {
+				return "nonfresh:package variable " + v.Name
+			}
+			return "nonfresh:unresolved " + v.Name
+		}
+		if v.Obj.Pos() == recvPos {
+			return "alias"
+		}
+		if isParam(v) {
+			return "param"
+		}
+		if cp.isPkgVar(v, fd) {
+			return "nonfresh:package variable " + v.Name
+		}
+		// local variable: every definition must be fresh
+		res := ""
+		ndefs := 0
+		ast.Inspect(fd.Body, func(n ast.Node) bool {
+			switch st := n.(type) {
+			case *ast.AssignStmt:
+				for i, l := range st.Lhs {
+					lid, ok := l.(*ast.Ident)
+					if !ok || lid.Obj != v.Obj {
+						continue
+					}
+					var rhs ast.Expr
+					if len(st.Rhs) == len(st.Lhs) {
+						rhs = st.Rhs[i]
+					} else if len(st.Rhs) == 1 {
+						rhs = st.Rhs[0]
+					}
+					if rhs == nil {
+						continue
+					}
+					ndefs++
+					k := c09Classify(cp, fd, rhs, depth+1)
+					if strings.HasPrefix(k, "nonfresh") {
+						if !strings.Contains(k, "<=") {
+							k += " <= " + exprString(rhs)
+						}
+						if strings.HasPrefix(res, "nonfresh") {
+							k = res + " | " + strings.TrimPrefix(k, "nonfresh:")
+						}
+						res = k
+					} else if res == "" || (k == "alias" && !strings.HasPrefix(res, "nonfresh")) {
+						res = k
+					}
+				}
+			case *ast.ValueSpec:
+				for i, n := range st.Names {
+					if n.Obj != v.Obj {
+						continue
+					}
+					ndefs++
+					if i < len(st.Values) {
+						k := c09Classify(cp, fd, st.Values[i], depth+1)
+						if strings.HasPrefix(k, "nonfresh") || res == "" {
+							res = k
+						}
+					} else if res == "" {
+						res = "fresh" // zero value
+					}
+				}
+			case *ast.RangeStmt:
+				for _, kv := range []ast.Expr{st.Key, st.Value} {
+					if lid, ok := kv.(*ast.Ident); ok && lid.Obj == v.Obj {
+						ndefs++
+						k := c09Classify(cp, fd, st.X, depth+1)
+						if strings.HasPrefix(k, "nonfresh") || res == "" {
+							res = k
+						}
+					}
+				}
+			}
+			return true
+		})
+		if ndefs == 0 {
+			return "nonfresh:no definition of " + v.Name
+		}
+		return res
+	}
+	return "nonfresh:" + exprString(e)
+}
+
+// c09LiteralFields classifies every field of the composite literal(s) of type typ returned
+// by fd.  It returns field -> classification and records alias fields in c09AliasFields.
+func c09LiteralFields(cp *c09Pkg, fd *ast.FuncDecl, typ string) (map[string]string, map[string]string) {
+	kinds := map[string]string{}
+	exprs := map[string]string{}
+	ast.Inspect(fd.Body, func(x ast.Node) bool {
+		rs, ok := x.(*ast.ReturnStmt)
+		if !ok || len(rs.Results) == 0 {
+			return true
+		}
+		e := rs.Results[0]
+		if u, ok := e.(*ast.UnaryExpr); ok && u.Op == token.AND {
+			e = u.X
+		}
+		cl, ok := e.(*ast.CompositeLit)
+		if !ok || exprString(cl.Type) != typ {
+			return true
+		}
+		for i, el := range cl.Elts {
+			kv, ok := el.(*ast.KeyValueExpr)
+			if !ok {
+				kinds[fmt.Sprintf("#%d", i)] = "nonfresh:unkeyed field"
+				continue
+			}
+			name := exprString(kv.Key)
+			kinds[name] = c09Classify(cp, fd, kv.Value, 0)
+			exprs[name] = exprString(kv.Value)
+			if kinds[name] == "alias" {
+				if c09AliasFields[typ] == nil {
+					c09AliasFields[typ] = map[string]bool{}
+				}
+				c09AliasFields[typ][name] = true
+			}
+		}
+		return false
+	})
+	return kinds, exprs
+}
+
+// c09PoolUses implements rule (d): struct fields / package variables of type sync.Pool or
+// sync.Map declared in the package, and every Get/Put/Load/Store… on them.
+func (cp *c09Pkg) poolUses() []c09Write {
+	var out []c09Write
+	names := map[string]bool{}
+	isPool := func(t ast.Expr) bool {
+		s := exprString(t)
+		return s == "sync.Pool" || s == "*sync.Pool" || s == "sync.Map" || s == "*sync.Map"
+	}
+	for _, fn := range cp.p.Names {
+		ast.Inspect(cp.p.Files[fn], func(x ast.Node) bool {
+			switch v := x.(type) {
+			case *ast.TypeSpec:
+				if st, ok := v.Type.(*ast.StructType); ok {
+					for _, f := range st.Fields.List {
+						if isPool(f.Type) {
+							for _, n := range f.Names {
+								names[n.Name] = true
+								out = append(out, c09Write{key: fmt.Sprintf("%s/%s:%s:pool-field:%s %s", cp.dir, fn, v.Name.Name, n.Name, exprString(f.Type)), pos: cp.line(n.Pos())})
+							}
+						}
+					}
+				}
+			case *ast.ValueSpec:
+				if v.Type != nil && isPool(v.Type) {
+					for _, n := range v.Names {
+						names[n.Name] = true
+					}
+				}
+			}
+			return true
+		})
+	}
+	if len(names) == 0 {
+		return out
+	}
+	ops := map[string]bool{"Get": true, "Put": true, "Load": true, "Store": true, "LoadOrStore": true, "LoadAndDelete": true, "Delete": true, "Swap": true, "CompareAndSwap": true, "Range": true}
+	for _, fn := range cp.p.Funcs() {
+		if fn.Decl.Body == nil {
+			continue
+		}
+		ast.Inspect(fn.Decl.Body, func(x ast.Node) bool {
+			c, ok := x.(*ast.CallExpr)
+			if !ok {
+				return true
+			}
+			sel, ok := c.Fun.(*ast.SelectorExpr)
+			if !ok || !ops[sel.Sel.Name] {
+				return true
+			}
+			last := ""
+			switch t := sel.X.(type) {
+			case *ast.Ident:
+				last = t.Name
+			case *ast.SelectorExpr:
+				last = t.Sel.Name
+			}
+			if names[last] {
+				out = append(out, c09Write{key: fmt.Sprintf("%s/%s:%s:pool:%s", cp.dir, fn.File, c09FuncName(fn.Decl), exprString(c.Fun)), pos: cp.line(c.Pos())})
+			}
+			return true
+		})
+	}
 	return out
 }
 
@@ -617,6 +936,46 @@ func factsC09(r *Repo) []Fact {
 				c09CallBound(runFd, "initTaskManager") && c09ReturnsFresh(itm, "taskManager"),
 				where+": `tm := r.initTaskManager(…)` and initTaskManager returns a fresh &taskManager{…}"))
 		}
+		// look INSIDE the two constructors: every field of the returned literal must be fresh,
+		// caller-provided, a scalar, or a (read-only) reference into the compiled object
+		var nonFresh []string
+		if icm != nil && itm != nil {
+			tmK, tmE := c09LiteralFields(compose, itm, "taskManager")
+			cmK, _ := c09LiteralFields(compose, icm, "channelManager")
+			collect := func(fn, typ string, ks map[string]string) bool {
+				ok := len(ks) > 0
+				var names []string
+				for f := range ks {
+					names = append(names, f)
+				}
+				sort.Strings(names)
+				for _, f := range names {
+					if strings.HasPrefix(ks[f], "nonfresh") {
+						ok = false
+						nonFresh = append(nonFresh, fmt.Sprintf("compose/%s:%s.%s:%s", fn, typ, f, strings.TrimPrefix(ks[f], "nonfresh:")))
+					}
+				}
+				return ok
+			}
+			tmOK := collect("graph_run.go:initTaskManager", "taskManager", tmK)
+			cmOK := collect("graph_run.go:initChannelManager", "channelManager", cmK)
+			// the completion queue: l: list.New(), done: make(chan …), mutex absent (zero value) or a literal
+			queueOK := tmE["l"] == "list.New()" && strings.HasPrefix(tmE["done"], "make(chan ") && tmK["done"] == "fresh" &&
+				(tmE["mu"] == "" || tmK["mu"] == "fresh")
+			out = append(out, boolFact("taskManagerQueueFresh", tmOK && queueOK,
+				where+": initTaskManager's literal has `l: list.New()`, `done: make(chan *task, …)`, a fresh/zero mutex and no field taken from a pool, cache or package variable"))
+			out = append(out, boolFact("channelManagerFieldsFresh", cmOK && cmK["channels"] == "fresh",
+				where+": initChannelManager's literal has `channels:` bound to a map made in this call and no field taken from a pool, cache or package variable (references into the compiled object are tracked as alias fields)"))
+			if debug {
+				fmt.Fprintln(os.Stderr, "taskManager fields:", tmK, "\nchannelManager fields:", cmK, "\nalias fields:", c09AliasFields)
+			}
+		} else {
+			out = append(out, unknownFact("taskManagerQueueFresh", "Bool", "false", where, "initTaskManager not found"))
+			out = append(out, unknownFact("channelManagerFieldsFresh", "Bool", "false", where, "initChannelManager not found"))
+		}
+		sort.Strings(nonFresh)
+		out = append(out, Fact{Name: "nonFreshPerRunFields", Type: "List String", Value: c09StrList(nonFresh),
+			Where: "fields of the per-run literals (taskManager, channelManager) whose value is neither allocated in the call, caller-provided, scalar nor a reference into the compiled object (must be [])"})
 		// channels themselves are built per run inside initChannelManager: `chs := make(map[string]channel)` + builder(…) per key
 		chPerRun := false
 		if icm != nil {
@@ -722,8 +1081,10 @@ func factsC09(r *Repo) []Fact {
 			writes = append(writes, compose.capturedWrites(fn.Decl, fn.File)...)
 		}
 	}
+	writes = append(writes, compose.poolUses()...)
 	for _, dir := range c09ClosurePkgs[1:] {
 		cp := c09Load(r, dir)
+		writes = append(writes, cp.poolUses()...)
 		for _, fn := range cp.p.Funcs() {
 			anchors[dir+":"+c09FuncName(fn.Decl)] = true
 			writes = append(writes, cp.capturedWrites(fn.Decl, fn.File)...)
